@@ -46,6 +46,15 @@ impl<RW: QueueRW<T>, T> MultiQueue<RW, T> {
     pub fn verif_signal(&self) -> &AtomicSignal {
         &self.manager.signal
     }
+
+    /// (retire list length, current batch length) of the memory manager
+    pub fn verif_pending(&self) -> (usize, usize) {
+        self.manager.verif_pending()
+    }
+
+    pub fn verif_preload_retirements(&self, n: usize) {
+        self.manager.verif_preload(n)
+    }
 }
 
 impl<RW: QueueRW<T>, T> InnerSend<RW, T> {
